@@ -1,6 +1,7 @@
 from enum import Enum, auto
 
 from bardolph.controller.units import UnitMode
+from bardolph.lib.symbol import SymbolType
 from bardolph.parser.code_gen import CodeGen
 from bardolph.parser.sub_parser import SubParser
 from bardolph.parser.token import TokenTypes
@@ -190,6 +191,8 @@ class LoopParser(SubParser):
         if not self.current_token.is_a(TokenTypes.NAME):
             return self.token_error('Expected name for lights, got "{}"')
         self._light_var = str(self.current_token)
+        if context_stack.has_symbol_typed(self._light_var, SymbolType.MACRO):
+            return self.token_error('Attempt to assign to constant "{}"')
         context_stack.add_variable(self._light_var)
         return self.next_token()
 
@@ -197,6 +200,8 @@ class LoopParser(SubParser):
         if not self.current_token.is_a(TokenTypes.NAME):
             return self.token_error('Not a variable name: "{}"')
         self._index_var = str(self.current_token)
+        if context_stack.has_symbol_typed(self._index_var, SymbolType.MACRO):
+            return self.token_error('Attempt to assign to constant "{}"')
         context_stack.add_variable(self._index_var)
         return self.next_token()
 
